@@ -109,7 +109,7 @@ def coq_term(case, obs):
     ws = L.uamiv_encode(c)
     v, tf, etf = coq_view(c, obs)
     hours = '[' + '; '.join('(%d, %d)' % (s['bhour'], s['ehour']) for s in c['steps']) + ']'
-    return '(Case %s %s %s %d %s %s %s %s %s)' % (
+    return '(U (Case %s %s %s %d %s %s %s %s %s))' % (
         L.coq_uamiv(c), hours, C.zlist(ws), obs['cut'], C.cbool(obs.get('open_ok', False)), v, tf, etf,
         C.zlist(obs.get('written', [])))
 
@@ -139,3 +139,83 @@ def shrink(case):
         yield dict(case, content=dict(c, steps=c['steps'][:-1]))
     if len(c['names']) > 1:
         yield dict(case, content=dict(c, names=c['names'][:-1], steps=[dict(s, data=s['data'][:-1]) for s in c['steps']]))
+
+
+# ----------------------------------------------------------------------------- met formats (record-level cases)
+from harness import camxfmt as M, metcheck as MC  # noqa
+
+_gen_uamiv_only = gen
+
+
+def gen(rng, n, tier):  # noqa: F811
+    out = _gen_uamiv_only(rng, (n * 2) // 3, tier)
+    for i in range(n - len(out)):
+        c = M.gen_met(rng, tier=tier)
+        out.append(dict(kind='met-' + c['fmt'], content=c, write=True))
+    return out
+
+
+_impl_uamiv = impl
+
+
+def impl(case):  # noqa: F811
+    if case['kind'].startswith('met-'):
+        return MC.run_met(case)
+    return _impl_uamiv(case)
+
+
+_coq_uamiv = coq_term
+
+
+def coq_term(case, obs):  # noqa: F811
+    if case['kind'].startswith('met-'):
+        if 'raises' in obs:
+            return None
+        c = case['content']
+        wr = obs.get('wr') or {}
+        return '(R %s %s %s %s)' % (C.zlist(M.encode(c)), C.zll(M.records(c)), C.cbool(wr.get('status') == 'ok'),
+                                    C.zlist(wr.get('words') or []))
+    return _coq_uamiv(case, obs)
+
+
+_py_uamiv = py_check
+
+
+def py_check(case, obs):  # noqa: F811
+    if not case['kind'].startswith('met-'):
+        return _py_uamiv(case, obs)
+    if 'raises' in obs:
+        return dict(s_ok=False, why='harness/impl raised ' + str(obs))
+    c = case['content']
+    why = []
+    mm = obs['mm']
+    if mm['status'] != 'ok':
+        why.append('library reader %s on a reference-encoded %s file (%s)' % (mm['status'], c['fmt'], mm.get('err')))
+    else:
+        why += M.view_matches(mm['view'], M.expected_view(c))
+        wr = obs.get('wr') or {}
+        if wr.get('status') != 'ok':
+            why.append('library writer %s (%s)' % (wr.get('status'), wr.get('err')))
+    return dict(s_ok=not why, region=MC.region_of(c), why='; '.join(why[:3]))
+
+
+_nt_uamiv = nontrivial
+
+
+def nontrivial(case, obs):  # noqa: F811
+    if case['kind'].startswith('met-'):
+        return obs.get('mm', {}).get('status') == 'ok'
+    return _nt_uamiv(case, obs)
+
+
+_shrink_uamiv = shrink
+
+
+def shrink(case):  # noqa: F811
+    if case['kind'].startswith('met-'):
+        c = case['content']
+        if len(c['steps']) > 1:
+            yield dict(case, content=dict(c, steps=c['steps'][:-1]))
+        return
+    for x in _shrink_uamiv(case):
+        yield x
